@@ -191,11 +191,17 @@ def rule_R10_4(ctx):
         gb, uneq = guard
         dom = all(g.dominates(gb, hd) for hd in hdrs)
         false_ret = False
-        for s in g.stmts(uneq):
-            if s[0] == "=" and s[2][0] == "agg" and s[2][1].get("k") == "adt" \
-                    and s[2][1]["adt"] == "std::result::Result" and s[2][1]["variant"] == "Ok" \
-                    and mir.const_val(s[2][2][0]) is False:
-                false_ret = True
+        cur = uneq
+        for _ in range(12):   # straight-line chain (drops of temporaries) to the answer
+            for s in g.stmts(cur):
+                if s[0] == "=" and s[2][0] == "agg" and s[2][1].get("k") == "adt" \
+                        and s[2][1]["adt"] == "std::result::Result" and s[2][1]["variant"] == "Ok" \
+                        and mir.const_val(s[2][2][0]) is False:
+                    false_ret = True
+            nx = g.succs(cur)
+            if false_ret or len(nx) != 1:
+                break
+            cur = nx[0]
         if dom and false_ret and not any(uneq in loops[hd] for hd in hdrs):
             r.ok()
         else:
